@@ -797,6 +797,34 @@ def scenarios(thorough=False):
     out.append(("recreate-same-metadata-other-digest", 2, same_history(0, 1, (1, 2))))     # refused
     out.append(("recreate-same-metadata-other-content-dir", 2, same_history(0, 2, (1, 2))))  # refused
 
+    # same metadata, same head, but the re-created versions hold MORE / FEWER / OTHER files than the ones the staged
+    # copy is based on (Version::same_as must compare whole states, both directions): all refused
+    def other_states(kind, which):
+        ops = [("new", 0, OID, 0), ("stage", 0, OID, "a.txt", 1), ("stage", 0, OID, "b.txt", 2), ("commit", 0, OID, 1),
+               ("stage", 0, OID, "c.txt", 3), ("commit", 0, OID, 2), ("stage", 0, OID, "d.txt", 4),
+               ("purge", 1, OID), ("new", 1, OID, 0), ("stage", 1, OID, "a.txt", 1)]
+        v1 = {"more": [("stage", 1, OID, "b.txt", 2), ("stage", 1, OID, "x.txt", 9)], "fewer": [],
+              "other": [("stage", 1, OID, "b.txt", 8)], "renamed": [("stage", 1, OID, "bb.txt", 2)]}
+        ops += (v1[kind] if which == 1 else [("stage", 1, OID, "b.txt", 2)]) + [("commit", 1, OID, 1)]
+        v2 = {"more": [("stage", 1, OID, "c.txt", 3), ("stage", 1, OID, "y.txt", 10)], "fewer": [("stage", 1, OID, "b.txt", 2)],
+              "other": [("stage", 1, OID, "c.txt", 7)], "renamed": [("stage", 1, OID, "cc.txt", 3)]}
+        ops += (v2[kind] if which == 2 else [("stage", 1, OID, "c.txt", 3)]) + [("commit", 1, OID, 2)]
+        ops += [("commit", 0, OID, 7), ("stage", 0, OID, "z.txt", 900), ("commit", 0, OID),
+                ("reset", 0, OID), ("stage", 0, OID, "d.txt", 5), ("commit", 0, OID)]
+        return ops
+    for kind in ("more", "fewer", "other", "renamed"):
+        for which in (1, 2):
+            out.append(("recreate-same-metadata-%s-files-in-v%d" % (kind, which), 2, other_states(kind, which)))
+    # one-version objects: an EMPTY first version against a re-created one with files, and the reverse
+    out.append(("recreate-same-metadata-empty-v1-vs-files", 2,
+                [("new", 0, OID, 0), ("commit", 0, OID, 1), ("stage", 0, OID, "b.txt", 2), ("purge", 1, OID), ("new", 1, OID, 0),
+                 ("stage", 1, OID, "a.txt", 1), ("commit", 1, OID, 1), ("commit", 0, OID, 7), ("reset", 0, OID),
+                 ("stage", 0, OID, "b.txt", 2), ("commit", 0, OID)]))
+    out.append(("recreate-same-metadata-files-vs-empty-v1", 2,
+                [("new", 0, OID, 0), ("stage", 0, OID, "a.txt", 1), ("commit", 0, OID, 1), ("stage", 0, OID, "b.txt", 2),
+                 ("purge", 1, OID), ("new", 1, OID, 0), ("commit", 1, OID, 1), ("commit", 0, OID, 7), ("reset", 0, OID),
+                 ("stage", 0, OID, "b.txt", 2), ("commit", 0, OID)]))
+
     # S4-style: staged v2 over a re-created v1
     t = Tok()
     ops = prefix_versions(t, 0, 1) + [t.stage(0), ("purge", 1, OID), ("new", 1, OID, 0), ("commit", 1, OID),
